@@ -149,7 +149,7 @@ CLAIMED = {
             'missing codes, 3 mask patterns, 8 header-comment subsets, independent-variable units given/omitted, '
             'source built by hand with missing_value / with fill value only / read from independently rendered text; '
             'one missing code for all variables or one per variable; source variables with a scale attribute; 99-101+ '
-            'header lines; integer time column): '
+            'header lines; integer time column; a masked independent variable): '
             'the written text is parsed by an independent FFI-1001 parser (declared header-line and variable counts '
             '== actual), re-read by ffi1001 and by auto-detection (names/order, units, missing codes, masks, values '
             'to 7 significant digits) and a second write/read cycle must change no data.',
